@@ -54,6 +54,10 @@ def gen_rows(ctx, fmt, max_rows):
                 if kind == "sint" and tape.boolean("pow10.neg", 1, 3):
                     v = -v
                 t[fname] = str(max(v, 1) if kind != "sint" else v)
+            if kind == "sint" and tape.boolean("int64_min", 1, 25) and not ctx.excl:
+                # KF-C03-int64-min (open): the most negative int64 is printed as '-2' (np.abs overflows); generated in the
+                # 10 % of the runs that do not apply the exclusions of open findings
+                t[fname] = str(-2 ** 63)
         if fmt.layout == "fastaw":
             n = FASTA_LENGTHS[tape.draw(len(FASTA_LENGTHS), "fa.len")]
             t["sequence"] = "".join("ACGT"[(i * 7 + n) % 4] for i in range(n))
